@@ -500,7 +500,11 @@ func TestArgumentTables(t *testing.T) {
 		}
 	}
 	cuts := []string{"", " ", "ab", "\t\n ", "é", "ba", "a-c", "]", "abcdefghijklmnopqrstuvwxyz"}
-	tsubj := []any{"  ab hello ba  ", "", "aaa", "\tx\n", "ééxé", "-a-", int64(101), 1.5, true}
+	tsubj := []any{"  ab hello ba  ", "", "aaa", "\tx\n", "ééxé", "-a-", int64(101), 1.5, true,
+		// every white space character beyond ASCII at the ends (an empty cut set removes all white space), also shielding ASCII
+		// blanks behind it; and format characters that are not white space (they stay)
+		"\u00a0x\u00a0", "\u3000 x \u3000", " \u2028x\u2029 ", "\u0085x\u0085", "\u1680x\u2000\u2001\u2002\u2003\u2004\u2005\u2006\u2007\u2008\u2009\u200a", "\u202fx\u205f", "\v\fx\r\n",
+		" \u200bx\u200b ", "\ufeff x \ufeff", "\u00a0", "x\u3000y"}
 	for ci, cs := range cuts {
 		for si, subj := range tsubj {
 			for side := 0; side < 2; side++ {
@@ -589,6 +593,77 @@ func TestArgumentTables(t *testing.T) {
 		}
 	}
 	evid.Exhaustive("replace: pattern x replacement template x subject; trim: cut set x subject; strfmt: verb x argument", n)
+}
+
+// TestValuelessBuiltinsAsValues: a builtin that returns nothing has no value wherever it is used as one - assignment
+// source, argument, list element, map value, condition, operand - whatever a builtin that does return a value (len,
+// get_key, load_json) left behind earlier in the run or earlier in the same argument list. (What "no value" reads as is
+// an open row: nil, or an error; never the value of the earlier call.)
+func TestValuelessBuiltinsAsValues(t *testing.T) {
+	voids := []func() *gen.Node{
+		func() *gen.Node { return gen.NCall("add_key", id("k"), gen.NCall("len", id("word"))) },
+		func() *gen.Node { return gen.NCall("add_key", id("k"), gen.NInt(1)) },
+		func() *gen.Node { return gen.NCall("drop_key", id("nosuchkey")) },
+		func() *gen.Node { return gen.NCall("drop_key", id("word")) },
+		func() *gen.Node { return gen.NCall("set_tag", id("tg"), str("v")) },
+		func() *gen.Node { return gen.NCall("rename", id("w2"), id("word")) },
+		func() *gen.Node { return gen.NCall("cast", id("num"), str("int")) },
+		func() *gen.Node { return gen.NCall("uppercase", id("word")) },
+		func() *gen.Node { return gen.NCall("trim", id("word")) },
+		func() *gen.Node { return gen.NCall("replace", id("word"), str("b"), str("x")) },
+		func() *gen.Node { return gen.NCall("url_decode", id("word")) },
+		func() *gen.Node { return gen.NCall("strfmt", id("out"), str("%v"), gen.NCall("len", id("word"))) },
+		func() *gen.Node { return gen.NCall("printf", str("%v\n"), gen.NCall("get_key", id("word"))) },
+		func() *gen.Node { return gen.NCall("set_measurement", str("m2")) },
+	}
+	before := [][]*gen.Node{
+		nil,
+		{gen.NSet("n", gen.NCall("len", id("word")))},
+		{gen.NSet("n", gen.NCall("get_key", id("word")))},
+		{gen.NSet("n", gen.NCall("load_json", str("[1, 2]")))},
+		{gen.NIf([]*gen.Node{gen.NBin("==", gen.NCall("len", id("word")), gen.NInt(4))}, [][]*gen.Node{{gen.NSet("q", gen.NInt(1))}}, nil, false)},
+		{gen.NSet("n", gen.NBool(true)), gen.NCall("probe", str("pre"), gen.NCall("len", id("word")))},
+	}
+	n := 0
+	for vi, mk := range voids {
+		for bi := range before {
+			for pos := 0; pos < 8; pos++ {
+				if (vi+bi+pos)%evid.NShards() != evid.Shard() {
+					continue
+				}
+				var prog []*gen.Node
+				for _, b := range before[bi] {
+					prog = append(prog, b.Clone())
+				}
+				v := mk()
+				switch pos {
+				case 0:
+					prog = append(prog, gen.NSet("r", v), gen.NCall("probe", str("r"), id("r")))
+				case 1:
+					prog = append(prog, gen.NCall("add_key", id("r"), v), gen.NCall("probe", str("r"), gen.NCall("get_key", id("r"))))
+				case 2:
+					prog = append(prog, gen.NCall("probe", str("elem"), gen.NList(gen.NInt(0), v)))
+				case 3:
+					prog = append(prog, gen.NCall("probe", str("mapval"), gen.NMap(str("k"), v)))
+				case 4:
+					prog = append(prog, gen.NIf([]*gen.Node{v}, [][]*gen.Node{{gen.NCall("probe", str("then"))}}, []*gen.Node{gen.NCall("probe", str("else"))}, true))
+				case 5:
+					prog = append(prog, gen.NCall("probe", str("operand"), gen.NBin("==", v, gen.NInt(4))))
+				case 6:
+					prog = append(prog, gen.NCall("probe", str("arg"), gen.NCall("len", id("word")), v))
+				case 7:
+					prog = append(prog, gen.NFor(nil, v, nil, []*gen.Node{gen.NCall("probe", str("body")), gen.NBreak()}))
+				}
+				prog = append(prog, gen.NCall("probe", str("after"), gen.NCall("get_key", str("k")), gen.NCall("get_key", str("word")), gen.NCall("get_key", str("r")), id("keep")))
+				c := sem.NewCase(gen.FixAll(prog))
+				c.Fields = map[string]any{"word": "abcd", "num": "12", "keep": int64(42)}
+				c.Tags = map[string]string{"keeptag": "kt"}
+				judge(t, "voidvalue", c, fmt.Sprintf("voidvalue/%d/%d/%d", vi, bi, pos), true, "valueless-builtin-as-value")
+				n++
+			}
+		}
+	}
+	evid.Exhaustive("builtin without a value x earlier value-returning call x consuming position", n)
 }
 
 // ------------------------------------------------------------------ random compositions
